@@ -38,7 +38,8 @@ from __future__ import annotations
 from collections import Counter
 from pathlib import Path
 
-from vp.common.harness import Fail, GriffeRaised, call
+from vp.common.bootstrap import HarnessError
+from vp.common.harness import Fail, GriffeRaised, call, exc_fail
 
 NAMES = ("a", "b", "c", "d", "e")
 FILEPATHS = {"py": "/x/{n}.py", "py2": "/y/{n}.py", "pyi": "/x/{n}.pyi", "pyi2": "/y/{n}.pyi"}
@@ -195,29 +196,29 @@ class World:
                     raise Skip("empty-target")
             node = self._new_node("alias", name)
             if kind == "alias-path":
-                real = g.Alias(name, ".".join(tpath), **parent_kw)
+                real = call("op-raises", g.Alias, name, ".".join(tpath), what="Alias(name, path)", **parent_kw)
             else:
                 if tnode is self.root:
                     raise Skip("alias-obj-target-collection")
-                real = g.Alias(name, target=self.real[tnode.id], **parent_kw)
+                real = call("op-raises", g.Alias, name, target=self.real[tnode.id], what="Alias(name, target=object)", **parent_kw)
             self.aliases_ever.append(node)
             self.real[node.id] = real
             return node, real, [kind, ".".join(tpath), pk]
         if kind == "module":
             node = self._new_node("module", name, val[1])
-            real = g.Module(name, filepath=self._filepath(val[1], name), **parent_kw)
+            real = call("op-raises", g.Module, name, filepath=self._filepath(val[1], name), what="Module(...)", **parent_kw)
             conc = ["module", val[1], pk]
         elif kind == "class":
             node = self._new_node("class", name)
-            real = g.Class(name, **parent_kw)
+            real = call("op-raises", g.Class, name, what="Class(...)", **parent_kw)
             conc = ["class", pk]
         elif kind == "function":
             node = self._new_node("function", name)
-            real = g.Function(name, **parent_kw)
+            real = call("op-raises", g.Function, name, what="Function(...)", **parent_kw)
             conc = ["function", pk]
         elif kind == "attribute":
             node = self._new_node("attribute", name)
-            real = g.Attribute(name, **parent_kw)
+            real = call("op-raises", g.Attribute, name, what="Attribute(...)", **parent_kw)
             conc = ["attribute", pk]
         else:
             raise ValueError(f"unknown value kind {kind!r}")
@@ -268,11 +269,23 @@ class World:
             f = gr.fail
             f.kind = f"{self.opdesc}:{f.kind}"
             return [f]
+        except (HarnessError, AssertionError):
+            raise
+        except Exception as exc:  # noqa: BLE001  (Griffe frames in the traceback -> Fail, else HarnessError)
+            f = exc_fail("op-raises", exc, self.opfull)
+            f.kind = f"{self.opdesc}:{f.kind}"
+            return [f]
         if not fails and check:
             try:
                 fails = self.check_invariants()
             except GriffeRaised as gr:
                 f = gr.fail
+                f.kind = f"{self.opdesc}:{f.kind}"
+                return [f]
+            except (HarnessError, AssertionError):
+                raise
+            except Exception as exc:  # noqa: BLE001
+                f = exc_fail("op-raises", exc, "invariant check after " + self.opfull)
                 f.kind = f"{self.opdesc}:{f.kind}"
                 return [f]
         for f in fails:
@@ -640,9 +653,9 @@ class World:
         if mode == "self":
             value = ar
         elif mode == "same-obj":
-            value = g.Function(node.name, parent=parent_real)
+            value = call("op-raises", g.Function, node.name, parent=parent_real, what="Function(name, parent=...)")
         elif mode == "same-alias":
-            value = g.Alias(node.name, "z.z", parent=parent_real)
+            value = call("op-raises", g.Alias, node.name, "z.z", parent=parent_real, what="Alias(name, path, parent=...)")
         else:
             raise ValueError(mode)
         self.trace.append(["retarget", apath, mode])
